@@ -663,3 +663,136 @@ torn_entry_harness!(c07_torn_entry_end_k148, 148, false, 8192 + C_SZ + 148);
 torn_entry_harness!(c07_torn_entry_over_stale_k8, 8, true, 8192 + C_SZ + A_SZ);
 torn_entry_harness!(c07_torn_entry_over_stale_k40, 40, true, 8192 + C_SZ + A_SZ);
 torn_entry_harness!(c07_torn_entry_over_stale_k148, 148, true, 8192 + C_SZ + A_SZ);
+
+// ------------------------------------------------------------------------------ C12 secret hygiene
+
+fn header_from_ref(r: &RefHeader) -> Header {
+    let mut h = Header::new(kp_from(r.public, r.secret));
+    h.tree.fork = r.fork;
+    h.tree.length = r.length;
+    if let Some((root, sig)) = &r.signed {
+        h.tree.root_hash = root.to_vec().into_boxed_slice();
+        h.tree.signature = sig.to_vec().into_boxed_slice();
+    }
+    h.hints.contiguous_length = r.contiguous_length;
+    h
+}
+
+/// make_read_only's oplog step: `flush(header_without_secret, clear_traces = true)`.
+/// Three StoreInfos: both slots rewritten as full 4096-byte zero-padded frames (no secret in
+/// either), then the entries truncated away.  Bytes are compared with the reference frame at a
+/// symbolic offset; a symbolic 32-byte window is compared with the secret key.
+#[kani::proof]
+#[kani::stub(std::fmt::format, stub_format)]
+#[kani::stub(std::string::String::from_utf8, stub_from_utf8)]
+fn c12_flush_clear_traces() {
+    let mut rh = base_header(2);
+    let with_secret = header_from_ref(&rh);
+    assert!(with_secret.key_pair.secret.is_some());
+    rh.secret = None;
+    let header = header_from_ref(&rh);
+    let mut oplog = Oplog { header_bits: [false, false], entries_length: 2, entries_byte_length: 161 };
+    let infos = oplog.flush(&header, true).unwrap();
+    assert!(infos.len() == 3);
+    assert!(oplog.entries_length == 0 && oplog.entries_byte_length == 0);
+    // slot 1 first (bits [F,F] -> second slot, bit T), then slot 0 (bits [F,T] -> first slot, bit T)
+    assert!(infos[0].index == 4096 && infos[1].index == 0);
+    assert!(infos[2].info_type == StoreInfoType::Size && infos[2].miss && infos[2].index == 8192);
+    let mut r = W::<4096>::new();
+    ref_header_at(&mut r, 0, &rh, true);
+    let which: usize = kani::any();
+    kani::assume(which < 2);
+    let d = infos[which].data.as_ref().unwrap();
+    assert!(infos[which].store == Store::Oplog && !infos[which].miss && d.len() == 4096);
+    let j: usize = kani::any();
+    kani::assume(j < 4096);
+    assert!(d[j] == r.buf[j]);
+    // no 32-byte window of what is written equals the secret key
+    let o: usize = kani::any();
+    kani::assume(o <= 4096 - 32);
+    let mut same = true;
+    let mut i = 0;
+    while i < 32 {
+        if d[o + i] != SK[i] {
+            same = false;
+        }
+        i += 1;
+    }
+    assert!(!same);
+    // the oplog now points at slot 0 again with both bits true
+    let next = oplog.clear(1, 2).unwrap();
+    assert!(next[0].index == 8192 && next[0].data.as_ref().unwrap()[4] & 1 == 0);
+    kani::cover!(true, "reached end");
+    std::mem::forget(infos);
+}
+
+/// Crash inside that flush: after 0, 1, 2 or all 3 of its storage operations the store reopens,
+/// with the same tree and hints, the same public key, and either key form (secret only while a
+/// slot written before the call is still the current one).  Pre-state: both slots hold headers
+/// with the secret (bits F/F, slot 0 current), one pending clear entry.
+fn crash_in_make_read_only<const APPLIED: usize>() {
+    const N: usize = 8192 + C_SZ;
+    let mut w = W::<N>::new();
+    let h_old = base_header(1);
+    let h_cur = base_header(2);
+    ref_header_at(&mut w, 4096, &h_old, false);
+    ref_header_at(&mut w, 0, &h_cur, false);
+    ref_entry_at(&mut w, 8192, &RefEntry { nodes: &[], upgrade: None, bitfield: Some((true, 0, 1)) }, false, false);
+    let mut ro = h_cur;
+    ro.secret = None;
+    if APPLIED >= 1 {
+        let mut i = 4096;
+        while i < 8192 {
+            w.buf[i] = 0;
+            i += 1;
+        }
+        ref_header_at(&mut w, 4096, &ro, true);
+    }
+    if APPLIED >= 2 {
+        let mut i = 0;
+        while i < 4096 {
+            w.buf[i] = 0;
+            i += 1;
+        }
+        ref_header_at(&mut w, 0, &ro, true);
+    }
+    let out = if APPLIED >= 3 {
+        let mut t = [0u8; 8192];
+        let mut i = 0;
+        while i < 8192 {
+            t[i] = w.buf[i];
+            i += 1;
+        }
+        open_image(t, &None)
+    } else {
+        open_image(w.buf, &None)
+    };
+    let mut out = out.unwrap();
+    let expect = if APPLIED == 0 { h_cur } else { ro };
+    assert!(header_matches(&out.header, &expect));
+    let entries = out.entries.take().unwrap_or_default();
+    // The pending clear is replayed while the old header is current (0).  After slot 1 was
+    // rewritten (1) its header bit no longer matches and it is skipped.  After both slots were
+    // rewritten (2) the entry bit has flipped twice, so until the truncate lands (3) the entry is
+    // replayed once more on top of the header that already contains it; replay of an entry is
+    // idempotent (bitfield set/drop, tree truncate+commit to the same length), so the observable
+    // state is still the "after" state -- not counted as a violation here.
+    assert!(entries.len() == if APPLIED == 0 || APPLIED == 2 { 1 } else { 0 });
+    kani::cover!(true, "reached end");
+    std::mem::forget(entries);
+    std::mem::forget(out);
+}
+macro_rules! crash_ro {
+    ($name:ident, $k:expr) => {
+        #[kani::proof]
+        #[kani::stub(std::fmt::format, stub_format)]
+        #[kani::stub(std::string::String::from_utf8, stub_from_utf8)]
+        fn $name() {
+            crash_in_make_read_only::<$k>();
+        }
+    };
+}
+crash_ro!(c12_crash_before, 0);
+crash_ro!(c12_crash_after_slot1, 1);
+crash_ro!(c12_crash_after_slot0, 2);
+crash_ro!(c12_crash_after_truncate, 3);
